@@ -26,7 +26,7 @@ import bluesky.run_engine as bre
 from bluesky.run_engine import RunEngine
 from bluesky.utils import DuringTask, FailedPause, Msg, PlanHalt, RequestAbort, RequestStop, RunEngineInterrupted
 
-WAIT = 5.0
+WAIT = 60.0      # generous: the stepping harness only waits this long when something is wrong (or the machine is very busy)
 
 
 class StepLoop(asyncio.AbstractEventLoop):
@@ -144,8 +144,45 @@ class Controller:
         self.results = {}              # id(msg) -> responses / errors the handlers produced for it
         self.errors = {}
         self.nresp = 0
+        self.c04_expected, self.c04_rewindable, self.c04_nr, self.c04_bad = [], True, False, []
+
+    NONREPLAYABLE = ("pause", "subscribe", "unsubscribe", "stage", "unstage", "monitor", "unmonitor", "open_run", "close_run",
+                     "install_suspender", "remove_suspender", "_start_suspender")
+
+    def c04_compare(self, where):
+        """the statement's replay list against the engine's message cache (C04)"""
+        cache = self.RE._msg_cache
+        exp = self.c04_expected
+        if self.c04_nr:
+            ok = cache is None
+        else:
+            ok = cache is not None and len(cache) == len(exp) and all(x is y for x, y in zip(cache, exp))
+        if not ok:
+            self.c04_bad.append(f"at {where}: the engine would replay {None if cache is None else [m.command for m in cache]}, "
+                                f"the statement wants {[m.command for m in exp]} (non-resumable section: {self.c04_nr})")
+
+    def c04_update(self, msg):
+        cmd = msg.command
+        if cmd == "_start_suspender":
+            self.c04_compare("suspension")
+        if not self.c04_nr and self.c04_rewindable and cmd not in self.NONREPLAYABLE:
+            self.c04_expected.append(msg)
+        if cmd == "clear_checkpoint":
+            self.c04_nr, self.c04_expected = True, []
+        elif cmd == "checkpoint":
+            self.c04_nr, self.c04_expected = False, []
+        elif cmd == "close_run" and any(b.run_is_open for b in self.RE._run_bundlers.values()):
+            self.c04_expected = []
+        elif cmd in ("stage", "unstage", "monitor", "unmonitor", "subscribe", "unsubscribe"):
+            self.c04_expected = []
+        elif cmd == "rewindable" and msg.args and msg.args[0] is not None and bool(msg.args[0]) != self.c04_rewindable:
+            self.c04_rewindable = bool(msg.args[0])
+            self.c04_expected = []
+        elif cmd == "_start_suspender":
+            self.c04_expected = []
 
     def on_msg(self, msg):
+        self.c04_update(msg)
         replayed = id(msg) in self.seen_msgs
         self.seen_msgs.add(id(msg))
         self.keep = getattr(self, "keep", [])
@@ -159,6 +196,10 @@ class Controller:
     def on_state(self, new, old):
         new = str(new)
         self.trace.append(("state", new))
+        if new == "paused":
+            self.c04_compare("pause")
+        if new == "running" and str(old) == "paused":
+            self.c04_expected = []           # resume has handed the cache to the rewind plan
         if new in ("pausing", "suspending") and self.section_nr and self.doomed is None:
             self.doomed = new
         if new == "aborting" and self.section_nr and self.doomed is None and isinstance(self.RE._exception, FailedPause):
@@ -445,6 +486,7 @@ def run_native(decisions, msgs):
     out["diverged"] = ctl.diverged
     out["trace"] = ctl.trace
     out["doomed_bad"] = ctl.doomed_bad
+    out["c04_bad"] = ctl.c04_bad
     out["log"] = ctl.log
     out["plan_exc"] = getattr(ctl, "plan_exc", None)
     out["loop_errors"] = [str(c.get("exception")) for c in ctl.loop.errors]
@@ -537,6 +579,8 @@ def _violations(obligation, res):
         for c in res["calls"]:
             if c["call"] in ("__call__", "resume") and c["outcome"] == "ok" and c["state"] == "idle" and pending and quiet and not c["deferred"]:
                 bad.append("the plan completed with a deferred pause pending, but deferred_pause_requested reads False afterwards")
+    elif tag.startswith("invariant[the cache holds exactly") or tag.startswith("requires[what is handed to the rewind"):
+        bad.extend(res.get("c04_bad", []))
     elif "no checkpoint in effect never leaves the engine paused" in tag or "no further plan message is executed before the plan's cleanup" in tag:
         bad.extend(b for b in res.get("doomed_bad", []) if ("reached 'paused'" in b) == ("never leaves the engine paused" in tag))
     elif tag.startswith("ensures[the call ends idle with every run closed and the plan's cleanup code entered"):
